@@ -13,6 +13,8 @@ EXPLANATION = (
     "fields in Reset(S)."
     ' R19-is-empty-exact: is_empty is computed without any float-to-integer estimate. R19-clear-keeps-config: a field no other method writes may only be stored back unchanged by clear (whole-`*self` stores are expanded through the constructor).'
 )
+from .common import NEW_WRITERS_NOTE as _NWN
+EXPLANATION = EXPLANATION + _NWN % "19"
 NOT_DECIDED = "`same answers after any further identical operation sequence` as such — follows if all behaviour-influencing state is reset, which is what is decided, assuming configuration fields never change (checked)."
 ASSUMPTIONS = [
     "external containers in the table (Vec, HashMap, BTreeSet, VecDeque, FixedBitSet, IntVector) are value-like: clear()/re-allocation empties them, Clone deep-copies",
@@ -254,6 +256,8 @@ def rebuilt_like_constructor(ctx, adt, fld, v):
 
 
 def run(ctx):
+    from .common import check_new_writers
+    check_new_writers(ctx, "R19-new-writers", ['filters::bloomfilter::BloomFilter', 'filters::cuckoofilter::CuckooFilter', 'filters::quotientfilter::QuotientFilter', 'countminsketch::CountMinSketch', 'hyperloglog::HyperLogLog', 'tdigest::TDigest', 'tdigest::TDigestInner', 'reservoirsampling::ReservoirSampling', 'topk::lossycounter::LossyCounter', 'topk::cmsheap::CMSHeap'])
     structures = run_clear_rules(ctx)
     run_clone_rules(ctx, structures)
 
